@@ -34,10 +34,17 @@ def overflow_of(m, W, R, strategy, counters=None):
                 n = len(text)
                 lim = min(W, g['indent'] + R)
                 if n > lim:
+                    tags = ['over-page' if n > W else 'over-ribbon', strategy]
+                    # shape: the overflowing line starts at a break that a group nested in g - decided again although g
+                    # is flat - produced (known finding: under align / a negative nest the inner ribbon is narrower)
+                    brk = items[0] if items and out[items[0]][0] == 'l' else None
+                    if brk is not None and g['start'] <= brk < g['end'] and any(
+                            h is not g and not h['flat'] and g['start'] <= h['start'] and h['end'] <= g['end']
+                            and h['start'] <= brk < h['end'] for h in m.groups):
+                        tags.append('inner-group-broken-inside-flat-group')
                     return ('flat-group-line-overflows',
                             'line %r has %d columns; group at indent %d laid out flat' % (text, n, g['indent']),
-                            'at most min(W=%d, indent+R=%d+%d)' % (W, g['indent'], R),
-                            ['over-page' if n > W else 'over-ribbon', strategy])
+                            'at most min(W=%d, indent+R=%d+%d)' % (W, g['indent'], R), tags)
     return None
 
 
@@ -67,6 +74,9 @@ def check_one(mods_, spec, W, frac, strategy, counters=None):
             return None
         if first is None:
             first = r
+        else:
+            # the shape tags must hold for every matching assignment
+            first = (first[0], first[1], first[2], [t for t in first[3] if t in r[3]])
     if n_match == 0:
         if counters is not None:
             counters['skipped_no_legal_assignment'] = counters.get('skipped_no_legal_assignment', 0) + 1
@@ -75,13 +85,40 @@ def check_one(mods_, spec, W, frac, strategy, counters=None):
         if counters is not None:
             counters['undetermined_search_budget'] = counters.get('undetermined_search_budget', 0) + 1
         return None
+    # classification: the output is also explained by the known C04 finding - a group laid out flat across a literal hard
+    # line (the predicates answer True at the first hard line) - when an assignment that allows such groups to be flat
+    # matches and uses one; the flat group then spans lines, and what the legal reading takes for an overflowing flat
+    # group is text after that hard line
+    for m in LR.match_all(mods_, doc, W, R, eng, trust_forced=False):
+        if any(g.get('illegal') and g.get('forced') == 'HL' for g in m.groups):
+            first = (first[0], first[1], first[2], first[3] + ['flathl'])
+            break
     return first
+
+
+# witnesses of the two known findings (known_findings.json): part of every run, so that the findings are reported at
+# every tier and a repair of the engine is noticed
+PINNED = [
+    (["group", ["nest", 1, ["ab", ["group", ["cat", [["align", ["group", ["nest", 4, ["cat", [["t", "a"], ["softline"], ["line"]]]]]],
+                                                  ["line"], ["t", "b"]]]]]]], 4, 0.7),
+    (["ab", ["group", ["group", ["cat", [["cat", [["softline"], ["hardline"]]],
+                                         ["group", ["cat", [["softline"], ["cat", [["t", "a"], ["t", "bbb"], ["t", "a"]]]]]]]]]]], 5, 0.7),
+]
 
 
 def shard(args):
     tier, seed, idx, n = args
     mods_ = LR.mods()
     acc = common.new_acc()
+    if idx == 0:
+        for spec, W, frac in PINNED:
+            for strategy in ('smart', 'fast'):
+                acc['evaluations'] += 1
+                r = check_one(mods_, spec, W, frac, strategy, acc['counters'])
+                if r is not None:
+                    kind, obs, exp, tags = r
+                    acc['violations'].append({'kind': kind, 'case': {'spec': spec, 'W': W, 'frac': frac, 'strategy': strategy},
+                                              'observed': obs, 'expected': exp, 'tags': sorted(tags)})
     widths = WIDTHS_Q if tier == 'quick' else WIDTHS_T
     maxn = 5 if tier == 'quick' else 6
     cases = [spec for j, spec in enumerate(LR.specs(maxn, classic=True)) if j % n == idx]
